@@ -167,7 +167,18 @@ func (c *Conn) AsyncRead() {
 	// If is EPOLLONESHOT, run the read job directly, because the reading event wouldn't
 	// be re-dispatched before this reading event has been handled and set again.
 	if g.isOneshot {
+		// The fd is also re-armed by the writing side (modWrite, resetRead and
+		// the re-arm after a pure writing event) while a read job is running,
+		// a reading event that comes then must not start a second job: the
+		// running job re-arms the fd when it is done and the event comes again.
+		if !atomic.CompareAndSwapInt32(&c.readEvents, 0, 1) {
+			return
+		}
 		g.IOExecute(func(pbuf *[]byte) {
+			defer func() {
+				atomic.StoreInt32(&c.readEvents, 0)
+				c.ResetPollerEvent()
+			}()
 			for i := 0; i < g.MaxConnReadTimesPerEventLoop; i++ {
 				// the previous round left the buffer cut to what it had read.
 				*pbuf = (*pbuf)[:cap(*pbuf)]
@@ -190,7 +201,6 @@ func (c *Conn) AsyncRead() {
 					break
 				}
 			}
-			c.ResetPollerEvent()
 		})
 		return
 	}
